@@ -79,7 +79,7 @@ Proof.
   rewrite IH. f_equal. apply tie_c_step.
 Qed.
 
-(** The limiters AS TRANSLATED never over-admit: FixedConcurrency(limit) and
+(** The limiters AS TRANSLATED never exceed their limit: FixedConcurrency(limit) and
     WeightedConcurrency(limit) created empty keep 0 <= in use <= limit for
     every operation sequence with any weights, and the limit never changes. *)
 Theorem code_limiter_static_bound : forall limit ops, 1 <= limit ->
